@@ -28,10 +28,13 @@ type params struct {
 	combo     bool   // the actor is built with vivid.NewComplexCombinationActor: [a Prelaunch part that carries the scripted failure, the scripted actor, a Prelaunch part that always succeeds]
 	lateSpawn bool   // an outside goroutine spawns a top-level actor while the system is being stopped
 	watch     string // none | b-dies-first: b watches a, b is killed, then a is killed (a's notification finds a dead watcher)
+	exposes   bool   // the actor's OnPrelaunch subscribes to an event type and publishes an event of it: its reference is in other hands before the spawn is decided
 }
 
+type exposed struct{}
+
 func (p params) name() string {
-	return fmt.Sprintf("site=%s/%s/dec=%s/prov=%v/become=%v/kill=%s/prelaunch=%s/twice=%v/hook=%s", p.site, p.cause, p.decision.String(), p.provider, p.become, p.kill, p.prelaunch, p.twice, p.hookFail) + map[bool]string{true: "/become-unbecome-afterwards", false: ""}[p.unbecome] + map[bool]string{true: "/combination-actor", false: ""}[p.combo] + map[bool]string{true: "/late-spawn", false: ""}[p.lateSpawn] + map[bool]string{true: "/slow-decision", false: ""}[p.slowDec] + map[bool]string{true: "/watch=" + p.watch, false: ""}[p.watch != "" && p.watch != "none"]
+	return fmt.Sprintf("site=%s/%s/dec=%s/prov=%v/become=%v/kill=%s/prelaunch=%s/twice=%v/hook=%s", p.site, p.cause, p.decision.String(), p.provider, p.become, p.kill, p.prelaunch, p.twice, p.hookFail) + map[bool]string{true: "/become-unbecome-afterwards", false: ""}[p.unbecome] + map[bool]string{true: "/combination-actor", false: ""}[p.combo] + map[bool]string{true: "/late-spawn", false: ""}[p.lateSpawn] + map[bool]string{true: "/slow-decision", false: ""}[p.slowDec] + map[bool]string{true: "/watch=" + p.watch, false: ""}[p.watch != "" && p.watch != "none"] + map[bool]string{true: "/prelaunch-exposes-ref", false: ""}[p.exposes]
 }
 
 func fail(ctx vivid.ActorContext, cause string) {
@@ -97,6 +100,14 @@ func scenario(p params, bounds []int) *vexp.Scenario {
 					gDeaths++
 					if gDeaths == 1 {
 						fail(ctx, p.cause)
+					}
+				}
+			}
+			if p.exposes {
+				a.PrelaunchCtx = func(act *vsys.Act, ctx vivid.PrelaunchContext, n int) {
+					if n == 0 {
+						ctx.EventStream().Subscribe(ctx, exposed{})
+						ctx.EventStream().Publish(ctx, exposed{})
 					}
 				}
 			}
@@ -387,6 +398,17 @@ func build(tier string) []*vexp.Scenario {
 	p := base
 	p.prelaunch = "spawn"
 	add(p)
+	// ... and an OnPrelaunch that hands the actor's reference out (subscribes and publishes) before the spawn is decided: a refused
+	// actor still receives nothing, an accepted one still sees OnLaunch first
+	p.exposes = true
+	add(p)
+	p.prelaunch = "none"
+	add(p)
+	for _, d := range []vivid.SupervisionDecision{vivid.SupervisionDecisionRestart, vivid.SupervisionDecisionStop} {
+		q := base
+		q.site, q.decision, q.exposes = "msg", d, true
+		add(q)
+	}
 	for _, d := range []vivid.SupervisionDecision{vivid.SupervisionDecisionRestart, vivid.SupervisionDecisionGracefulRestart} {
 		for _, prov := range []bool{false, true} {
 			q := base
